@@ -637,8 +637,9 @@ impl Rewriter {
       mir::Type::Int32 | mir::Type::Int31 => false,
       mir::Type::Id(type_id) => {
         let Some(type_def) = self.specialized_type_definitions.get(type_id) else {
-          // Recursive type currently being processed - must be heap-allocated (pointer).
-          return self.specialized_type_definition_names.contains(type_id);
+          // Type currently being processed: its layout is not known yet, so it may turn out
+          // to contain i31 or unboxed variants. Be conservative.
+          return false;
         };
         match &type_def.mappings {
           // Structs are always pointers.
